@@ -859,16 +859,13 @@ class Table(Vector):
 			if self._dtype is not None and not self._dtype.nullable and other.schema() is not None and not other.schema().nullable and self._dtype.kind != other.schema().kind:
 				raise SerifTypeError("Cannot concatenate two typesafe Vectors of different types")
 			# complicated typesafety rules here - what if a whole bunch of things.
-			return Vector(self.cols() + other.cols(),
-				dtype=self._dtype)
+			return self._stack_columns(self.cols() + other.cols())
 		if isinstance(other, Vector):
 			# Adding a column to a table - tables can have mixed-type columns
-			return Vector(self.cols() + (other,),
-				dtype=self._dtype)
+			return self._stack_columns(self.cols() + (other,))
 		if isinstance(other, Iterable) and not isinstance(other, (str, bytes, bytearray)):
 			# Convert iterable to Vector and add as column (let Vector infer dtype)
-			return Vector(self.cols() + (Vector(other),),
-				dtype=self._dtype)
+			return self._stack_columns(self.cols() + (Vector(other),))
 		elif not self:
 			return Vector((other,),
 				dtype=self._dtype)
